@@ -33,7 +33,7 @@ func RunC14(tier string) int {
 		for _, t := range s.Targets {
 			switch r.Intn(6) {
 			case 0, 1: // exit-status check
-				m := "markers/ok_" + t.Name
+				m := "markers/ok_" + t.MID()
 				t.Checks = append(t.Checks, spec.Check{Marker: m, Shape: rng.Pick(r, []string{"", "", "and", "nosete"})})
 				markers = append(markers, m)
 				switch r.Intn(3) {
@@ -42,10 +42,10 @@ func RunC14(tier string) int {
 				case 1:
 					// a command that can break its own postcondition: it removes the checked
 					// marker while the control marker is present
-					t.Untouch, t.UntouchIf = m, "markers/break_"+t.Name
+					t.Untouch, t.UntouchIf = m, "markers/break_"+t.MID()
 				}
 			case 2: // expected_output check
-				m := "markers/eo_" + t.Name
+				m := "markers/eo_" + t.MID()
 				t.Checks = append(t.Checks, spec.Check{Marker: m, Expected: "ok"})
 				markers = append(markers, m)
 				if r.Chance(1, 2) {
@@ -53,22 +53,30 @@ func RunC14(tier string) int {
 				}
 			case 3:
 				if len(t.AllOuts()) > 0 {
-					t.OmitIf = "markers/omit_" + t.Name
+					t.OmitIf = "markers/omit_" + t.MID()
 					if outs := t.AllOuts(); len(outs) >= 2 && r.Chance(1, 2) {
 						// only one of the declared outputs goes missing
 						t.Omit = outs[r.Intn(len(outs))].Path
 					}
 				}
 			case 4:
-				t.SleepIf = "markers/slow_" + t.Name
+				t.SleepIf = "markers/slow_" + t.MID()
 				t.Timeout = "3s"
+				// how the target's shell takes the signal that ends an overrun command: killed
+				// outright, exits 0 on TERM (graceful shutdown), or ignores TERM
+				switch r.Intn(3) {
+				case 0:
+					t.TrapExit0 = true
+				case 1:
+					t.TrapTerm = true
+				}
 			}
 		}
 		// several checks on one target, of both flavours, in either order: every one of them counts
 		for _, t := range s.Targets {
 			if len(t.Checks) == 1 && r.Chance(1, 2) {
 				for j := r.Range(1, 2); j > 0; j-- {
-					m := fmt.Sprintf("markers/x%d_%s", j, t.Name)
+					m := fmt.Sprintf("markers/x%d_%s", j, t.MID())
 					c := spec.Check{Marker: m, Shape: rng.Pick(r, []string{"", "", "and", "nosete"})}
 					if r.Chance(1, 2) {
 						c.Expected = "ok"
